@@ -221,7 +221,7 @@ def obsModel (s : St) : String × String :=
     | some seg =>
       let lk := match os.semNames (.lock k) with
         | some o => toString (os.sems o).value
-        | none => "-"
+        | none => "1"     -- no lock object: the next opener makes one of value 1 (presence: internal view)
       s!"m{k}={(os.segs seg).bytes.length}/{lk}"
     | none => s!"m{k}=-"
   let hs := (List.range NH).filterMap fun h =>
@@ -256,7 +256,7 @@ def obsSpec (s : St) : String :=
     | some i =>
       let lk := match sp.lock i with
         | some v => toString v
-        | none => "-"
+        | none => "1"
       s!"m{k}={(sp.mem i).length}/{lk}"
     | none => s!"m{k}=-"
   let hs := (List.range NH).filterMap fun h =>
